@@ -1347,7 +1347,8 @@ func (e *CoreExtension) filterCapitalize(value interface{}, args ...interface{})
 	words := strings.Fields(s)
 	for i, word := range words {
 		if len(word) > 0 {
-			words[i] = strings.ToUpper(word[0:1]) + strings.ToLower(word[1:])
+			_, size := utf8.DecodeRuneInString(word)
+			words[i] = strings.ToUpper(word[:size]) + strings.ToLower(word[size:])
 		}
 	}
 
@@ -1364,7 +1365,8 @@ func (e *CoreExtension) filterTitle(value interface{}, args ...interface{}) (int
 	words := strings.Fields(s)
 	for i, word := range words {
 		if len(word) > 0 {
-			words[i] = strings.ToUpper(word[0:1]) + strings.ToLower(word[1:])
+			_, size := utf8.DecodeRuneInString(word)
+			words[i] = strings.ToUpper(word[:size]) + strings.ToLower(word[size:])
 		}
 	}
 
